@@ -29,7 +29,9 @@ TIM = {"day": F(1), "yr": F(36525, 100), "hour": F(1, 24)}
 
 
 def plan(ctx):
-    return [("twin", i) for i in range(120 if ctx.thorough else 18)] + [("conv", 0)]
+    # "twinL": many epochs - det(2 pi B) (not its logarithm) leaves the double range in ONE of the two unit systems
+    return ([("twin", i) for i in range(120 if ctx.thorough else 18)] + [("conv", 0)]
+            + [("twinL", i) for i in range(12 if ctx.thorough else 4)])
 
 
 def cv(value, old, new):
@@ -114,12 +116,58 @@ def run_conv(ctx, g, rng):
                                       "unit conversion must be value * scale(from) / scale(to)")
 
 
+def run_twin_large(ctx, g, rng):
+    """the same many-epoch problem in km/s and in m/s: ln-likelihoods differ by -n ln(1000) exactly (both finite)"""
+    import astropy.units as u
+    import pymc as pm
+    import thejoker as tj
+    regime = ("km/s-class errors", "m/s-class errors")[g["index"] % 2]
+    n = int(rng.integers(50, 90)) if g["index"] % 2 == 0 else int(rng.integers(90, 150))
+    t = np.sort(rng.uniform(0, 700, n)) + 58000.0
+    err = rng.uniform(0.8, 2.5, n) if g["index"] % 2 == 0 else rng.uniform(0.002, 0.006, n)      # km/s
+    P0, e0 = float(rng.uniform(5, 80)), float(rng.uniform(0, 0.5))
+    y = 20.0 * scen.kepler_column(t, P0, e0, 1.0, 2.0, float(t.min())) + 7.0 + rng.normal(0, 1, n) * err    # km/s
+    with pm.Model():
+        prior = tj.JokerPrior.default(P_min=2 * u.day, P_max=500 * u.day, sigma_K0=30 * u.km / u.s, sigma_v=100 * u.km / u.s)
+    N = 5
+    smp = tj.JokerSamples()
+    smp["P"] = np.concatenate([[P0], rng.uniform(3, 300, N - 1)]) * u.day
+    smp["e"] = np.concatenate([[e0], rng.uniform(0, 0.8, N - 1)]) * u.one
+    smp["omega"] = np.concatenate([[1.0], rng.uniform(0, 6.28, N - 1)]) * u.rad
+    smp["M0"] = np.concatenate([[2.0], rng.uniform(0, 6.28, N - 1)]) * u.rad
+    smp["s"] = np.zeros(N) * u.km / u.s
+    jk = tj.TheJoker(prior, rng=np.random.default_rng(1))
+    inp = dict(n_epochs=n, regime=regime, median_err_kms=float(np.median(err)))
+    ctx.count(f"twinL:{regime}")
+    ctx.evaluated(R1, (g["kind"], g["index"]))
+    out = {}
+    for name, un in (("km/s", u.km / u.s), ("m/s", u.m / u.s)):
+        d = tj.RVData(t, (y * u.km / u.s).to(un), (err * u.km / u.s).to(un))
+        try:
+            out[name] = np.asarray(jk.marginal_ln_likelihood(d, smp, in_memory=True), dtype=float)
+        except Exception as e:   # noqa: BLE001
+            ctx.violation(R1, g, dict(inp, data_unit=name), f"{type(e).__name__}: {str(e)[:160]}", None,
+                          "the same physical problem must be evaluable in every unit system", tags=dict(kind="twinL", regime=regime))
+            return
+    a, b = out["km/s"], out["m/s"]
+    expect = a - n * np.log(1000.0)
+    dev = np.abs(b - expect)
+    tol = 1e-7 * (1 + np.abs(a))
+    if not (np.all(np.isfinite(a)) and np.all(np.isfinite(b)) and np.all(dev <= tol)):
+        i = int(np.argmax(np.where(np.isfinite(dev), dev, np.inf)))
+        ctx.violation(R1, g, dict(inp, row=i), dict(ll_kms=float(a[i]), ll_ms=float(b[i])), dict(expected_ms=float(expect[i]), tol=float(tol[i])),
+                      "re-expressing the problem in other units changes ln-likelihood only by -n*ln(data unit ratio)",
+                      tags=dict(kind="twinL", regime=regime))
+
+
 def run_case(ctx, g):
     import astropy.units as u
     ctx.seed = g.get("seed", ctx.seed)
     rng = ctx.case_rng(g["kind"], g["index"])
     if g["kind"] == "conv":
         return run_conv(ctx, g, rng)
+    if g["kind"] == "twinL":
+        return run_twin_large(ctx, g, rng)
     pr = scen.make_problem(rng, n=int(rng.integers(2, 11)), units="canonical")
     N = 40
     lib, phys = scen.make_library(rng, pr, N, units="canonical")
